@@ -95,6 +95,14 @@ FUNCTIONS = [
     ('isotp/tools.py', 'FiniteByteGenerator', 'remaining_size'),
     ('isotp/tools.py', 'FiniteByteGenerator', 'depleted'),
     ('isotp/tools.py', 'FiniteByteGenerator', 'total_length'),
+    ('isotp/protocol.py', 'TransportLayer', 'start'),
+    ('isotp/protocol.py', 'TransportLayer', 'stop'),
+    ('isotp/protocol.py', 'TransportLayer', '_relay_thread_fn'),
+    ('isotp/protocol.py', 'TransportLayer', '_main_thread_fn'),
+    ('isotp/protocol.py', 'TransportLayer', 'stop_sending'),
+    ('isotp/protocol.py', 'TransportLayer', 'stop_receiving'),
+    ('isotp/protocol.py', 'NotifierBasedCanStack', 'start'),
+    ('isotp/protocol.py', 'NotifierBasedCanStack', 'stop'),
     ('isotp/protocol.py', '', '_python_can_to_isotp_message'),
     ('isotp/protocol.py', '', '_read_isotp_message'),
     ('isotp/protocol.py', '', 'python_can_tx_canbus_3plus'),
@@ -246,6 +254,9 @@ def expr(n):
             return '(.int (%d))' % v
         if isinstance(v, str):
             return '(.strLit %s)' % lstr(v)
+        if isinstance(v, float):
+            # a float literal: an opaque value (floats are outside the subset); the `Meths` of the theorem says what it stands for
+            return '(.call "__float__" (.cons (.strLit %s) .nil))' % lstr(repr(v))
         raise Unsupported('constant %r' % (v,))
     if isinstance(n, (ast.Name, ast.Attribute)):
         d = dotted(n)
